@@ -586,8 +586,9 @@ static void explore_config(void)
     vf_count(CT_STATES, SET.n);
     vf_max(CT_MAXSTATES, SET.n);
     if (vf_want_sample() && SET.n > 60) {
-        uint8_t h[64];
-        int n = history_of(SET.n - 1, h, 64);
+        static uint8_t h[8200];
+        int n = history_of(SET.n - 1, h, 8192);
+        if (n > 24) n = 24;
         vf_str s = { 0 };
         vf_str_printf(&s, "input %s (%zu bytes) init_%s max_depth %d fill 0x%02x: %zu states; a deepest history:", INLABEL, INLEN, KIND0 == VK_OBJ ? "object" : "array", MD, FILL, SET.n);
         for (int i = 0; i < n; i++) vf_str_printf(&s, " %s", opname[h[i]]);
@@ -846,6 +847,21 @@ static void worker(int w, int W, uint64_t start)
                 snprintf(lab, sizeof lab, "big payload: shape %d, length %zu", shape, lens[li]);
                 process_input(bd.bytes, bd.len, lab);
             }
+    }
+    /* 3d. wide containers: 300 elements / fields (8-bit counters wrap), explored like any other input */
+    {
+        static vf_doc wd;
+        for (int shape = 0; shape < 2; shape++) {
+            if (!take()) continue;
+            vf_b_reset(&wd);
+            if (shape == 0) { vf_b_open(&wd, VK_ARR); for (int i = 0; i < 300; i++) { if (i % 50 == 49) { vf_b_open(&wd, VK_ARR); vf_b_close(&wd); } else vf_b_int(&wd, i); } vf_b_close(&wd); }
+            else {
+                vf_b_open(&wd, VK_OBJ);
+                for (int i = 0; i < 300; i++) { char nm[3] = { (char) ('a' + i / 26), (char) ('a' + i % 26), 0 }; vf_b_name(&wd, nm, 2); if (i % 60 == 59) { vf_b_open(&wd, VK_OBJ); vf_b_close(&wd); } else vf_b_int(&wd, i); }
+                vf_b_close(&wd);
+            }
+            process_input(wd.bytes, wd.len, shape ? "wide: object of 300 fields" : "wide: array of 300 elements");
+        }
     }
     /* 4. the writer (C09, C12, C16 speak about it too) */
 writer_phase:
